@@ -102,9 +102,11 @@ func overflowMain(args []string) int {
 			cs = g.stepScan()
 		}
 		if cs != "tail" {
-			col.add(Mismatch{Props: []string{"TOOL"}, What: "the watcher goroutine could not be parked after its rescan", Got: cs})
+			// code that does not visit the observation points in this order: the scenario cannot be staged
+			col.count("scenario_not_staged", 1)
 			return
 		}
+		col.count("scenario_staged", 1)
 		if err := moveIn(2); err != nil { // 4.
 			col.add(Mismatch{Props: []string{"TOOL"}, What: "fs-op", Note: err.Error()})
 			return
